@@ -68,9 +68,6 @@ pub mod stub {
             if self.secs < o.secs || (self.secs == o.secs && self.nanos < o.nanos) { Ordering::Less } else if self.secs == o.secs && self.nanos == o.nanos { Ordering::Equal } else { Ordering::Greater }
         }
     }
-    /// std::cmp::min (assumed std contract).
-    pub assume_specification<T: Ord>[ std::cmp::min::<T> ](a: T, b: T) -> (r: T)
-        ensures T::obeys_cmp_spec() ==> r == (if a.cmp_spec(&b) == Ordering::Greater { b } else { a });
     /// httpdate: `fmt_http_date(t)` renders t truncated to the second; `parse_http_date` yields whole seconds.
     pub struct HDate { pub t: Ghost<SystemTime> }
     #[verifier::external_body]
@@ -170,6 +167,10 @@ pub mod http {
     impl Request {
         pub fn method(&self) -> (r: &Method) ensures r == &self.method { &self.method }
         pub fn headers(&self) -> (r: &HeaderMap) ensures r == &self.headers { &self.headers }
+    }
+    pub mod request {
+        /// http::request::Parts as far as `streaming_body` looks at it.
+        pub struct Parts { pub method: super::Method, pub headers: super::HeaderMap }
     }
     /// `extra` stands for the headers added after the builder stage through `headers_mut()`.
     pub struct Response<B> { pub v: Ghost<RespView>, pub body: B, pub extra: HeaderMap }
